@@ -12,7 +12,7 @@ from .common import HEADER, FOOTER, contract, extract_struct, extract_struct_pri
 
 def build():
     u = Unit("u8_writer_tail")
-    u.rlimit = 150  # the tail region is one long straight-line proof (measured: ~120M rlimit units, 9 s)
+    u.rlimit = 400  # the tail region is one long straight-line proof (measured: ~120M rlimit units, 9 s)
     u.raw("#![feature(allocator_api)]\n" + HEADER, "header")
     u.raw("use std::collections::{BTreeMap, HashSet};\nuse std::io::Write;\n", "glue")
     raw = u.source("src/cache/raw.rs")
@@ -50,6 +50,7 @@ def build():
             Err(_) => delivered_prefix(old(self).inner.sunk(), final(self).inner.sunk(), buf@),
         },
         /*@L:offset_tracks_position_mod_8:C15,C09*/ r is Ok ==> final(self).offset as int == (old(self).offset as int + buf@.len()) % 8,""")
+    w.body_start("proof { reveal(delivered_prefix); }\n")
     u.emit(w)
     p = raw.impl_fn(PW, "pad_to_8")
     p.ret("r")
@@ -58,9 +59,10 @@ def build():
     p.contract("""    ensures
         /*@L:padding_is_zero_bytes_to_next_multiple_of_8:C15,C09*/ match r {
             Ok(_) => ext_by_zeros(old(self).inner.sunk(), final(self).inner.sunk(), pad_len(old(self).offset as int)) && final(self).offset == 0,
-            Err(_) => final(self).inner.sunk().len() - old(self).inner.sunk().len() <= pad_len(old(self).offset as int)
+            Err(_) => 0 <= final(self).inner.sunk().len() - old(self).inner.sunk().len() <= pad_len(old(self).offset as int)
                 && ext_by_zeros(old(self).inner.sunk(), final(self).inner.sunk(), final(self).inner.sunk().len() - old(self).inner.sunk().len()),
         },""")
+    p.body_start("proof { reveal(delivered_prefix); reveal(ext_by_zeros); }\n")
     u.emit(p)
     u.raw("}\n", "glue")
     # ---------------- R5 region: the tail of ProguardCache::write ----------------
@@ -75,10 +77,13 @@ def build():
                    why="Iterator::map+sum over BTreeMap::values behind a shim (assumed: the u32 sum, panics on overflow => precondition)")
     reg.replace_re(r"classes\s*\.values\(\)\s*\.map\(\|c\| c\.class\.members_by_params_len\)\s*\.sum::<u32>\(\)", "shim_sum_by_params_len(&classes)", "R2")
     reg.replace("classes.len()", "shim_btree_len(&classes)", "R2", why="BTreeMap::len behind a shim")
-    reg.replace("header.as_bytes()", "shim_header_as_bytes(&header)", "R2", why="Pod::as_bytes behind a shim (byte image abstract; layout pinned by Kani K1)")
-    reg.replace("c.class.as_bytes()", "shim_class_as_bytes(&c.class)", "R2")
-    reg.replace("members.as_bytes()", "shim_members_as_bytes(&members)", "R2")
-    reg.replace("members_by_params.as_bytes()", "shim_members_as_bytes(&members_by_params)", "R2")
+    # Pod::as_bytes behind shims, chosen by the receiver expression (generic, so that a wrong receiver is *verified*, not lost)
+    import re as _re
+    for m in _re.finditer(r"([a-z_]+(?:\.[a-z_]+)*)\.as_bytes\(\)", reg.orig):
+        recv = m.group(1)
+        shim = {"header": "shim_header_as_bytes", "c.class": "shim_class_as_bytes"}.get(recv, "shim_members_as_bytes")
+        reg.replace_span(m.start(), m.end(), "%s(&%s)" % (shim, recv), "R2",
+                         "Pod::as_bytes behind a shim (byte image abstract; layout pinned by Kani K1)")
     reg.replace_re(r"members\.extend\(c\.members\.into_values\(\)\.flat_map\(\|m\| m\.into_iter\(\)\)\);", "shim_extend_flatten(&mut members, c.members);", "R2",
                    why="Vec::extend(BTreeMap::into_values().flat_map(..)) behind a shim: appends the map's vectors in key order")
     reg.replace_re(r"members_by_params\.extend\(\s*c\.members_by_params\s*\.into_values\(\)\s*\.flat_map\(\|m\| m\.into_iter\(\)\),?\s*\);", "shim_extend_flatten(&mut members_by_params, c.members_by_params);", "R2")
@@ -96,12 +101,14 @@ def build():
         let ghost z1 = zeros(pad_len(hb.len() as int)); let ghost z2 = zeros(pad_len(cb.len() as int));
         let ghost z3 = zeros(pad_len(mb.len() as int)); let ghost z4 = zeros(pad_len(pb.len() as int));
         let ghost p2 = Seq::<u8>::empty() + hb + z1;
+        let ghost mut stage: int = 0;   // how many of the nine chunks (hb z1 cb z2 mb z3 pb z4 strs) have been delivered completely
         proof {
             axiom_record_sizes(); lemma_classes_len(cs, nn);
             // the canonical layout as one left-nested concatenation; every cumulative prefix of it is a prefix of canon
-            assert(canon =~= Seq::<u8>::empty() + hb + z1 + cb + z2 + mb + z3 + pb + z4 + strs);
-            lemma_prefix_chain(canon, hb, z1, cb, z2, mb, z3, pb, z4, strs);
-            assert(sunk0 + done =~= sunk0);
+            lemma_canonical_flat(cs, strs);
+            lemma_layout_prefixes(canon, hb, z1, cb, z2, mb, z3, pb, z4, strs);
+            lemma_add_empty(sunk0);
+            assert(done == layout_prefix(0, hb, z1, cb, z2, mb, z3, pb, z4, strs));
         }
         """)
     # generic tracking of every `writer.write_all(X)?;` / `writer.pad_to_8()?;` statement, in whatever order they occur:
@@ -113,12 +120,15 @@ def build():
               (r"&string_bytes", "string_bytes@"), (r"([a-z_]+)\.as_bytes\(\)", r"members_bytes(\1@)")]
     for m in re.finditer(r"writer\s*\.\s*(write_all\((.*?)\)|pad_to_8\(\))\s*\?;", reg.orig, re.S):
         inloop = lo < m.start() < hi
+        LP = "hb, z1, cb, z2, mb, z3, pb, z4, strs"
         if m.group(1).startswith("pad_to_8"):
-            reg.insert_at(m.start(), """let ghost k_pad = pad_len(writer.offset as int);
-        proof { /*@L:padding_keeps_canonical_prefix:C15,C09,C10*/ assert(is_prefix_of(done + zeros(k_pad), canon)); lemma_track_pad(sunk0, done, k_pad, canon); }
-        """)
+            reg.insert_at(m.start(), """let ghost chunk = zeros(pad_len(writer.offset as int));
+        proof { /*@L:padding_is_the_next_chunk_of_the_layout:C15,C09,C10*/ assert(chunk == layout_chunk(stage + 1, %s));
+                assert(done + chunk == layout_prefix(stage + 1, %s));
+                lemma_track_pad(sunk0, done, pad_len(writer.offset as int), canon); }
+        """ % (LP, LP))
             reg.insert_at(m.end(), """
-        proof { done = done + zeros(k_pad); assert(writer.inner.sunk() == sunk0 + done); assert(writer.offset as int == done.len() % 8); }""")
+        proof { done = done + chunk; stage = stage + 1; assert(done == layout_prefix(stage, hb, z1, cb, z2, mb, z3, pb, z4, strs)); assert(writer.inner.sunk() == sunk0 + done); assert(writer.offset as int == done.len() %% 8); }""" % ())
         else:
             arg = m.group(2).strip()
             chunk = None
@@ -130,23 +140,26 @@ def build():
             if chunk is None:
                 from vf.unit import AnchorLost
                 raise AnchorLost("write_all argument %r has no known byte image" % arg)
-            pre = ""
             if inloop:
-                pre = """assert(c.class == emitted_class(cs, i));
-                lemma_classes_split(cs, i + 1, nn);
-                assert(p2 + cb =~= (p2 + classes_bytes(cs, i) + class_bytes(emitted_class(cs, i))) + classes_suffix(cs, i + 1, nn));
-                lemma_prefix_of_concat(p2 + classes_bytes(cs, i) + class_bytes(emitted_class(cs, i)), classes_suffix(cs, i + 1, nn));
-                lemma_prefix_trans(p2 + classes_bytes(cs, i) + class_bytes(emitted_class(cs, i)), p2 + cb, canon);
-                """
-            reg.insert_at(m.start(), """let ghost chunk = %s;
-        proof { %s/*@L:chunk_keeps_canonical_prefix:C15,C09,C10,C03,C02*/ assert(is_prefix_of(done + chunk, canon)); lemma_track_write(sunk0, done, chunk, canon); }
-        """ % (chunk, pre))
-            reg.insert_at(m.end(), """
+                reg.insert_at(m.start(), """let ghost chunk = %s;
+        proof { /*@L:class_record_is_the_next_piece_of_the_class_section:C15,C09,C10,C03,C02*/ assert(c.class == emitted_class(cs, i));
+                lemma_class_piece_prefix(p2, cs, i, nn, canon);
+                lemma_track_write(sunk0, done, chunk, canon); }
+        """ % chunk)
+                reg.insert_at(m.end(), """
         proof { done = done + chunk; assert(writer.inner.sunk() == sunk0 + done); assert(writer.offset as int == done.len() %% 8); }""" % ())
+            else:
+                reg.insert_at(m.start(), """let ghost chunk = %s;
+        proof { /*@L:chunk_is_the_next_chunk_of_the_layout:C15,C09,C10,C03,C02*/ assert(chunk == layout_chunk(stage + 1, %s));
+                assert(done + chunk == layout_prefix(stage + 1, %s));
+                lemma_track_write(sunk0, done, chunk, canon); }
+        """ % (chunk, LP, LP))
+                reg.insert_at(m.end(), """
+        proof { done = done + chunk; stage = stage + 1; assert(done == layout_prefix(stage, hb, z1, cb, z2, mb, z3, pb, z4, strs)); assert(writer.inner.sunk() == sunk0 + done); assert(writer.offset as int == done.len() %% 8); }""" % ())
     reg.insert_before("writer.write_all(header.as_bytes())", "proof { assert(header == header_of(cs, strs)); }\n        ") if "writer.write_all(header.as_bytes())" in " ".join(reg.orig.split()) else None
     reg.for_to_loop(1, it_name="it", iter_expr="shim_into_values(classes)",
         after_decl="""let ghost mut n: int = 0;
-        proof { assert(cs.skip(0) == cs); assert(done =~= p2 + classes_bytes(cs, 0)); }
+        proof { assert(cs.skip(0) == cs); /*@L:class_section_starts_after_padded_header:C15,C09,C10*/ assert(stage == 2); lemma_add_empty(p2); assert(done == p2 + classes_bytes(cs, 0)); }
 """,
         spec="""            invariant
                 it.obeys_prophetic_iter_laws(), it.decrease() is Some,
@@ -154,6 +167,8 @@ def build():
                 cs == vals(classes), strs == table_bytes(string_table), sunk0 == old(writer).inner.sunk(),
                 canon == canonical(cs, strs), hb == hdr_bytes(header_of(cs, strs)), hb.len() == 24,
                 cb == classes_bytes(cs, nn), mb == members_bytes(all_members(cs, nn)), pb == members_bytes(all_by_params(cs, nn)),
+                stage == 2, z1 == zeros(pad_len(hb.len() as int)), z2 == zeros(pad_len(cb.len() as int)), z3 == zeros(pad_len(mb.len() as int)), z4 == zeros(pad_len(pb.len() as int)),
+                forall|k: int| 0 <= k <= 9 ==> is_prefix_of(#[trigger] layout_prefix(k, hb, z1, cb, z2, mb, z3, pb, z4, strs), canon),
                 done == p2 + classes_bytes(cs, n), p2 == Seq::<u8>::empty() + hb + zeros(pad_len(hb.len() as int)), is_prefix_of(p2 + cb, canon),
                 writer.inner.sunk() == sunk0 + done,
                 writer.offset as int == done.len() % 8,
@@ -174,10 +189,14 @@ def build():
 """)
     # end of the loop body: the two vectors hold the records of the first n classes
     if loops:
-        reg.insert_at(hi, """proof { assert(members@ =~= all_members(cs, n)); assert(members_by_params@ =~= all_by_params(cs, n));
-                assert(done =~= p2 + classes_bytes(cs, n)); }
+        reg.insert_at(hi, """proof { assert(members@ == all_members(cs, n)); assert(members_by_params@ == all_by_params(cs, n));
+                assert(done == p2 + classes_bytes(cs, n)); }
         """)
-    reg.insert_at(len(reg.orig) - len("Ok(())"), "proof { /*@L:everything_was_written:C15,C09,C10*/ assert(done =~= canon); }\n        ")
+    # after the loop the whole class section has been delivered
+    if loops:
+        reg.insert_at(hi + 1, """
+        proof { assert(done == layout_prefix(3, hb, z1, cb, z2, mb, z3, pb, z4, strs)); stage = 3; }""")
+    reg.insert_at(len(reg.orig) - len("Ok(())"), "proof { /*@L:everything_was_written:C15,C09,C10*/ assert(stage == 9); assert(done == canon); }\n        ")
     u.emit(reg, prefix="""fn region_write_tail<'d, W: Write>(writer: &mut PaddedWriter<W>, string_table: StringTable, classes: BTreeMap<&'d str, ClassInProgress<'d>>) -> (ret: std::io::Result<()>)
     requires
         old(writer).offset == 0,
